@@ -534,6 +534,33 @@ func (x *inst) apply(ev string) {
 		if err != nil {
 			x.violate("reload-failed", "reloadulm-failed", err.Error())
 		}
+	case "ULMFF":
+		// rebuild epilogue in which ONE extent query (FIEMAP) of chain file <i> fails while the block map is rebuilt:
+		// UpdateLUNMap may refuse, but when it reports success every byte must still read back
+		i := atoi(f[1])
+		var restore func()
+		armed := false
+		err := x.guard(ev, func() error {
+			x.srv.SetPreload(false)
+			e := x.srv.Reload()
+			x.srv.SetPreload(true)
+			if e != nil {
+				return fmt.Errorf("reload: %v", e)
+			}
+			restore, armed = x.srv.Replica().VerifFailFiemapOnce(i)
+			e = x.srv.UpdateLUNMap()
+			replica.VerifFlushHoles()
+			restore()
+			if e != nil {
+				return nil // refusing is the correct answer to a failed extent query
+			}
+			x.cnt["ulmff_reported_success"]++
+			return nil
+		})
+		x.observe("%s -> %v armed=%v", ev, err != nil, armed)
+		if err != nil {
+			x.violate("reload-failed", "ulmff-failed", err.Error())
+		}
 	case "ULMW":
 		// rebuild epilogue with a foreground write landing in UpdateLUNMap's unlocked window (after the extents were
 		// scanned, before the merge re-takes the server lock)
